@@ -20,8 +20,11 @@ MCNodeRecs ==
 MCNodeSeq == <<"env", "root", "flag", "p1", "p2", "p1x", "p1A", "p1B", "p1C", "p1N", "p2A", "p2B", "p2C", "p1xA",
                "p1A1", "p1A2", "p1B1", "p1B2", "p2A1", "p2A2", "p2B1", "p2B2">>
 
-MCDecl == [p1 |-> {"A", "B", "C", "N", "D", "E"}, p2 |-> {"A", "B", "C", "D", "E"}, p1x |-> {"A", "D"},
+MCDecl == [p1 |-> {"A", "B", "C", "N", "D", "E"}, p2 |-> {"A", "B", "C", "D", "E", "X", "Y"}, p1x |-> {"A", "D"},
            p1s1 |-> {"A", "D", "E"}, p1s2 |-> {"A", "D"}, p2s1 |-> {"A", "D"}, p2s2 |-> {"D", "E"}]
+
+\* p2 declares X only under //go:build tag_env and Y only under //go:build tag_root (build-tags is a top-level parameter)
+MCTagged == [p1 |-> << >>, p2 |-> [X |-> "env", Y |-> "root"], p1x |-> << >>, p1s1 |-> << >>, p1s2 |-> << >>, p2s1 |-> << >>, p2s2 |-> << >>]
 
 MCSubs == [p1 |-> {"p1s1", "p1s2", "p1x"}, p2 |-> {"p2s1", "p2s2"}, p1x |-> {}]
 =============================================================================
